@@ -5,7 +5,7 @@ mod traits;
 
 // pick v128 simd
 cfg_if::cfg_if! {
-    if #[cfg(target_feature = "sse2")] {
+    if #[cfg(all(target_feature = "sse2", not(sonic_rs_verif_portable)))] {
         mod sse2;
         use self::sse2::*;
     } else if #[cfg(all(target_feature="neon", target_arch="aarch64"))] {
